@@ -292,21 +292,34 @@ def scale_indexes(impl, rng, n):
     return out
 
 
-def roundtrip_fails(impl, entries, common):
+def roundtrip_fails(impl, entries, common, form=None):
     try:
-        return oracle_roundtrip(entries, common, impl.load(impl.save(entries, common)))
+        return oracle_roundtrip(entries, common, impl.load(impl.save(entries, common, form=form)))
     except Exception as e:  # noqa
         return "save raised %s: %s" % (type(e).__name__, e)
 
 
-def shrink_scale(impl, entries, common):
-    """Cheap shrink of a failing dict: an ordered pair of its entries, then shorter arrays (bisection on each length)."""
-    best = list(entries)
+def describe_form(form):
+    return "keys %s, common %s, %s, row-id arrays %s, file mode %s" % (
+        form.get("keys_tag"), form.get("common"), form.get("container"), sorted(set(form.get("rows") or ["contiguous"])), form.get("save_mode"))
+
+
+def form_note(impl, entries, common, form):
+    """For a failing case: does the same CONTENT fail in the ordinary form (Python ints, dict, contiguous arrays, 'wb')?"""
+    if form.get("keys") is None and form.get("rows") is None:
+        return ""
+    plain = roundtrip_fails(impl, entries, common, form=dict(PLAIN_FORM))
+    return " [input form: %s; the same content in the ordinary form %s]" % (describe_form(form), "fails too" if plain else "round-trips")
+
+
+def shrink_scale(impl, entries, common, form):
+    """Cheap shrink of a failing dict (same form): an ordered pair of its entries, then shorter arrays (bisection on each length)."""
+    best, bform = list(entries), form
     for i in range(len(entries)):
         for j in range(i + 1, len(entries)):
-            cand = [entries[i], entries[j]]
-            if roundtrip_fails(impl, cand, common):
-                best = cand
+            cand, cf = [entries[i], entries[j]], sub_form(form, [i, j])
+            if roundtrip_fails(impl, cand, common, cf):
+                best, bform = cand, cf
                 break
         if len(best) == 2:
             break
@@ -316,12 +329,12 @@ def shrink_scale(impl, entries, common):
             mid = (lo + hi) // 2
             cand = list(best)
             cand[i] = (best[i][0], best[i][1][:mid])
-            if roundtrip_fails(impl, cand, common):
+            if roundtrip_fails(impl, cand, common, bform):
                 hi = mid
             else:
                 lo = mid + 1
         best[i] = (best[i][0], best[i][1][:hi])
-    return best if roundtrip_fails(impl, best, common) else list(entries)
+    return (best, bform) if roundtrip_fails(impl, best, common, bform) else (list(entries), form)
 
 
 def run_scale_stream(ctx, impl, n_base, n_giant):
@@ -334,8 +347,9 @@ def run_scale_stream(ctx, impl, n_base, n_giant):
         try:
             data = impl.save(entries, common)
         except Exception as e:
-            bad.append(dict(rec, stream="scale", what="save raised %s: %s" % (type(e).__name__, e)))
+            bad.append(dict(rec, stream="scale", form=impl.last_form, what="save raised %s: %s" % (type(e).__name__, e)))
             continue
+        form = impl.last_form
         o = impl.load(data)
         why = oracle_roundtrip(entries, common, o)
         if why:
@@ -344,12 +358,13 @@ def run_scale_stream(ctx, impl, n_base, n_giant):
             got = dict(o[1]) if o[0] == "loaded" else {}
             first = next(([list(k), v[:6], got.get(tuple(k), [])[:6]] for k, v in entries if got.get(tuple(k)) != v), None)
             if not any(b.get("stream") == "scale-shrunk" for b in bad):
-                small = shrink_scale(impl, entries, common)
-                o2 = impl.load(impl.save(small, common))
-                bad.append({"entries": [[list(k), v] for k, v in small], "common": common, "stream": "scale-shrunk", "row_id_lengths": [len(v) for _, v in small],
-                            "what": "%s (shrunk; row-id array lengths in dict order %r)" % (oracle_roundtrip(small, common, o2), [len(v) for _, v in small]),
+                small, sform = shrink_scale(impl, entries, common, form)
+                o2 = impl.load(impl.save(small, common, form=sform))
+                bad.append({"entries": [[list(k), v] for k, v in small], "common": common, "stream": "scale-shrunk", "row_id_lengths": [len(v) for _, v in small], "form": sform,
+                            "what": "%s (shrunk; row-id array lengths in dict order %r)%s" % (oracle_roundtrip(small, common, o2), [len(v) for _, v in small],
+                                                                                               form_note(impl, small, common, sform)),
                             "observed": repr(o2)[:300]})
-            bad.append(dict(rec, stream="scale", row_id_lengths=lens_, first_entry_that_differs_key_saved_loaded=first,
+            bad.append(dict(rec, stream="scale", row_id_lengths=lens_, first_entry_that_differs_key_saved_loaded=first, form=form,
                             what="%s (row-id array lengths in dict order %r)" % (why, lens_), observed=repr(o)[:300]))
         dist["orders"] += 1
         dist["short_nonempty_before_long"] += any(0 < a < 64 and any(b >= 64 for b in lens_[i + 1:]) for i, a in enumerate(lens_))
@@ -382,11 +397,120 @@ def classify(e):
     return 5
 
 
-class Impl:
-    """Runs the working-tree IndxIO on real files inside ctx.scratch (removed when the check ends)."""
+# --------------------------------------------------------------------------
+# FORM of the inputs (content unchanged): NumPy-scalar coordinates / common, container type, row-id array layout, file modes.
+# Established on the unchanged tree (2026-10-02): save/load handle every form generated here.  NOT generated:
+#   * row ids as list / int64 / big-endian arrays, io.BytesIO, a file not at offset 0   - save rejects them (documented checks);
+#   * numpy.uint64 coordinates MIXED with signed NumPy scalars or Python ints in one dict when a coordinate exceeds 2^53
+#     - numpy.array(keys) becomes float64 and the coordinates are silently rounded: see notes/indx.md 'FORM FINDINGS' (FF1).
+# --------------------------------------------------------------------------
 
-    def __init__(self, ctx):
+SAVE_MODES = [["wb", -1], ["wb", -1], ["w+b", -1], ["wb", 0], ["r+b", -1], ["ab", -1], ["w+b", 0]]
+LOAD_MODES = [["rb", -1], ["rb", -1], ["r+b", -1], ["rb", 0], ["r+b", 0]]
+ROW_FORMS = ["contiguous", "contiguous", "column-view", "readonly", "negstride"]
+
+
+def numpy_bits(d):
+    return int(d.lstrip("uint"))
+
+
+def make_form(rng, entries, common):
+    """A JSON-able description of the form in which (entries, common) is handed to save."""
+    from .. import forms
+    coords = [c for k, _ in entries for c in k]
+    r = rng.random()
+    if not coords or r < 0.4:
+        keys, ktag = [["py"] * len(k) for k, _ in entries], "python-int"
+    elif r < 0.75:
+        d = rng.choice(forms.int_dtypes_holding(coords))          # every coordinate as a scalar of ONE dtype that holds them all
+        keys, ktag = [[d] * len(k) for k, _ in entries], "uniform:" + d
+    elif r < 0.85:
+        keys = [[min(forms.int_dtypes_holding([c]), key=lambda d: (numpy_bits(d), d)) for c in k] for k, _ in entries]
+        ktag = "narrowest-per-scalar"
+    else:
+        no_u64 = max(coords) > 2 ** 53                                # FF1
+        keys = [[rng.choice([d for d in forms.int_dtypes_holding([c]) if not (no_u64 and d == "uint64")] + ["py"]) for c in k] for k, _ in entries]
+        ktag = "mixed"
+    cform = "py" if rng.random() < 0.6 else rng.choice(forms.int_dtypes_holding([common]))
+    return {"keys": keys, "keys_tag": ktag, "common": cform, "container": rng.choice(["dict", "dict", "OrderedDict", "defaultdict"]),
+            "rows": [rng.choice(ROW_FORMS) for _ in entries], "save_mode": rng.choice(SAVE_MODES)}
+
+
+PLAIN_FORM = {"keys": None, "keys_tag": "python-int", "common": "py", "container": "dict", "rows": None, "save_mode": ["wb", -1]}
+
+
+def sub_form(form, idxs):
+    f = dict(form)
+    if form.get("keys") is not None:
+        f["keys"] = [form["keys"][i] for i in idxs]
+    if form.get("rows") is not None:
+        f["rows"] = [form["rows"][i] for i in idxs]
+    return f
+
+
+def apply_form(np, entries, common, form):
+    """(mapping, common object) with the content of (entries, common) in the given form."""
+    import collections
+
+    def scal(v, d):
+        return int(v) if d == "py" else np.dtype(d).type(v)
+
+    def rows(v, kind):
+        a = np.array(v, dtype=np.uint32)
+        if kind == "column-view":
+            big = np.zeros((len(a), 2), dtype=np.uint32)
+            big[:, 0] = a
+            big[:, 1] = 0xFFFFFFFF
+            return big[:, 0]
+        if kind == "readonly":
+            a.setflags(write=False)
+            return a
+        if kind == "negstride":
+            return a[::-1].copy()[::-1]
+        return a
+    items = []
+    for i, (k, v) in enumerate(entries):
+        kd = form["keys"][i] if form.get("keys") is not None else ["py"] * len(k)
+        items.append((tuple(scal(c, d) for c, d in zip(k, kd)), rows(v, form["rows"][i] if form.get("rows") is not None else "contiguous")))
+    cont = form.get("container", "dict")
+    if cont == "OrderedDict":
+        m = collections.OrderedDict(items)
+    elif cont == "defaultdict":
+        m = collections.defaultdict(lambda: np.array([], dtype=np.uint32), items)
+    else:
+        m = dict(items)
+    return m, scal(common, form.get("common", "py"))
+
+
+def form_tags(np, entries, common, form):
+    """Tags for the evidence histogram."""
+    tags = ["keys:" + form.get("keys_tag", "python-int"), "common:" + ("python-int" if form.get("common", "py") == "py" else "numpy." + form["common"]),
+            "container:" + form.get("container", "dict"), "save_mode:%s/buffering=%s" % tuple(form.get("save_mode", ["wb", -1]))]
+    for r in sorted(set(form.get("rows") or [])):
+        tags.append("rows:" + r)
+    if form.get("keys") and entries:
+        kd = [d for ks in form["keys"] for d in ks]
+        if all(d != "py" for d in kd):
+            mat = np.result_type(*[np.dtype(d) for d in kd])
+            fitted = narrowest(max_word(entries, common))
+            if mat.kind in "iu" and mat.itemsize < fitted:
+                tags.append("key-matrix-narrower-than-fitted-word")
+            if mat.kind in "iu" and mat.itemsize > fitted:
+                tags.append("key-matrix-wider-than-fitted-word")
+            if mat.kind == "f":
+                tags.append("key-matrix-float64(uint64+signed, values <= 2^53)")
+    return tags
+
+
+class Impl:
+    """Runs the working-tree IndxIO on real files inside ctx.scratch (removed when the check ends).
+    With vary_forms=True (default) every save gets a randomly chosen input FORM (make_form) and every load a randomly chosen
+    file mode; `last_form` is the form of the last save (recorded with failing inputs; replay passes it back)."""
+
+    def __init__(self, ctx, vary_forms=True):
         ctx.import_catii()
+        import collections
+        import random
         import numpy
         from catii.indxio import IndxIO
         import catii
@@ -397,16 +521,43 @@ class Impl:
         os.makedirs(self.dir, exist_ok=True)
         self.path = os.path.join(self.dir, "f.indx")
         self.u32 = numpy.dtype(numpy.uint32)
+        self.forms_rng = random.Random(ctx.rng.random()) if vary_forms else None      # own stream: the content generators are not disturbed
+        self.form_hist = collections.Counter()
+        self.last_form = dict(PLAIN_FORM)
+        self.ctx = ctx
 
     def to_dict(self, entries):
         return {k: self.np.array(v, dtype=self.np.uint32) for k, v in entries}
 
-    def save(self, entries, common):
+    def open_load(self):
+        mode, buffering = self.forms_rng.choice(LOAD_MODES) if self.forms_rng else ("rb", -1)
+        self.form_hist["load_mode:%s/buffering=%s" % (mode, buffering)] += 1
+        return open(self.path, mode, buffering=buffering)
+
+    def save(self, entries, common, form=None):
         """bytes written by the real save (raises what save raises)."""
-        with open(self.path, "wb") as f:
-            self.IndxIO.save(f, self.to_dict(entries), common, self.u32)
+        if form is None:
+            form = make_form(self.forms_rng, entries, common) if self.forms_rng else dict(PLAIN_FORM)
+        self.last_form = form
+        m, c = apply_form(self.np, entries, common, form)
+        for t in form_tags(self.np, entries, common, form):
+            self.form_hist[t] += 1
+        mode, buffering = form.get("save_mode", ["wb", -1])
+        if mode in ("r+b", "ab"):
+            if os.path.exists(self.path):
+                os.unlink(self.path)
+            if mode == "r+b":
+                open(self.path, "wb").close()
+        with open(self.path, mode, buffering=buffering) as f:
+            self.IndxIO.save(f, m, c, self.u32)
         with open(self.path, "rb") as f:
             return f.read()
+
+    def record_forms(self):
+        self.ctx.coverage["input_forms"] = dict(sorted(self.form_hist.items()))
+        self.ctx.coverage["input_forms_not_generated"] = [
+            "row ids as list / int64 / big-endian array (save refuses: dtype check)", "io.BytesIO (no fileno)", "file not at offset 0 (save's length check)",
+            "numpy.uint64 coordinates mixed with signed NumPy scalars or Python ints when a coordinate exceeds 2^53 (key matrix becomes float64: FORM FINDING FF1, notes/indx.md)"]
 
     def save_partial(self):
         with open(self.path, "rb") as f:
@@ -416,7 +567,7 @@ class Impl:
         """('loaded', entries, common, itemsize, types_ok) | ('raised', stage class, repr)."""
         with open(self.path, "wb") as f:
             f.write(data)
-        with open(self.path, "rb") as f:
+        with self.open_load() as f:
             try:
                 entries, common, dt = self.IndxIO.load(f)
                 out = [(tuple(int(c) for c in k), [int(x) for x in v.tolist()]) for k, v in entries.items()]
@@ -526,12 +677,14 @@ def run_stream(ctx, impl, n_gen):
         try:
             data = impl.save(entries, common)
         except Exception as e:
-            bad.append(dict(rec, what="save raised %s: %s" % (type(e).__name__, e)))
+            form = impl.last_form
+            bad.append(dict(rec, form=form, what="save raised %s: %s%s" % (type(e).__name__, e, form_note(impl, entries, common, form))))
             continue
+        form = impl.last_form
         o = impl.load(data)
         why = oracle_roundtrip(entries, common, o)
         if why:
-            bad.append(dict(rec, what=why, observed=repr(o)[:600]))
+            bad.append(dict(rec, form=form, what=why + (form_note(impl, entries, common, form)), observed=repr(o)[:600]))
         lits.append("(%s, %s, %s, %s)" % (lit_entries(entries), core.zlit(common), lit_bytes(data), lit_obs(o)))
         recs.append(rec)
         ctx.nontrivial.add(case_key(entries, common))
@@ -673,7 +826,10 @@ def run(ctx):
                 "some re-labelled to 2/4/8-byte values, and from_array on skewed 100..2000-row arrays (long and short entries); (s) scale: dicts of 2..8 entries "
                 "mixing short (0..10) and long (64..600, exactly 63/64/65, 255/256/257) strictly increasing row-id arrays up to 2^32-1 in every dict order "
                 "(all permutations for <= 3 entries; else as generated / reversed / short-first / long-first / 2 shuffles), plus dicts with one ~70 000-id "
-                "array (judged by the direct oracle only); a case is distinct per (entries in dict order, common[, shape]); every case is saved and loaded for real")
+                "array (judged by the direct oracle only); a case is distinct per (entries in dict order, common[, shape]); every case is saved and loaded for real; the FORM of the "
+                "input varies in ~60%% of the dict cases with the content unchanged (coordinates as NumPy scalars of one / the narrowest / mixed dtypes, common as NumPy scalar, "
+                "dict / OrderedDict / defaultdict, row-id arrays contiguous / column view / read-only / negative-stride-copy, file modes wb w+b r+b ab unbuffered; "
+                "load modes rb r+b unbuffered) - tags counted in coverage.input_forms" % ())
     ctx.trusted = list(core.STD_TRUSTED) + TRUSTED
     pr, proof_ok = prove(ctx, "C10.v")
     build_check(ctx)
@@ -684,6 +840,7 @@ def run(ctx):
     slits, sbad, srecs, sdist = run_scale_stream(ctx, impl, n_sbase, n_giant)
     ctx.evaluations = len(lits) + len(ilits) + sdist["orders"]
     ctx.coverage["scale_stream_distribution"] = dict(sorted(sdist.items()))
+    impl.record_forms()
     ctx.samples = recs[:3] + irecs[:1] + irecs[-1:] + [{"scale_case_row_id_lengths": [len(v) for _, v in srecs[0]["entries"]], "common": srecs[0]["common"]}] if srecs else recs[:3] + irecs[:3]
     ctx.coverage["input_distribution"] = dict(sorted(dist.items()))
     ctx.coverage["index_stream_distribution"] = dict(sorted(idist.items()))
@@ -738,11 +895,11 @@ def replay(ctx, path):
     for c in r.get("failing_inputs", []):
         entries = [(tuple(k), list(v)) for k, v in c["entries"]]
         try:
-            o = impl.load(impl.save(entries, c["common"]))
+            o = impl.load(impl.save(entries, c["common"], form=c.get("form") or dict(PLAIN_FORM)))
             why = oracle_roundtrip(entries, c["common"], o)
         except Exception as e:
             why = "save raised %s: %s" % (type(e).__name__, e)
-        print("entries=%r common=%r -> %s" % (c["entries"], c["common"], why or "round trip ok"))
+        print("entries=%r common=%r form=%s -> %s" % (str(c["entries"])[:300], c["common"], describe_form(c.get("form") or PLAIN_FORM), why or "round trip ok"))
         if why:
             still.append(dict(c, what=why))
     ctx.evaluations = len(r.get("failing_inputs", []))
